@@ -1,6 +1,6 @@
 (* C19: property theorems (statements in full; proofs in Proofs*.v). *)
 From Coq Require Import List NArith ZArith Bool.
-From C19 Require Import Gen Model Spec ProofsPtr ProofsPatch ProofsPatchExact ProofsParse ProofsNum ProofsEq RTNum ProofsDouble RTStr RTDefs RTMain RTFinal RTDouble ProofsPatchDoc.
+From C19 Require Import Gen Model Spec ProofsPtr ProofsPatch ProofsPatchExact ProofsParse ProofsNum ProofsEq RTNum ProofsDouble RTStr RTDefs RTMain RTFinal RTDouble ProofsHandler ProofsHandlerObj ProofsPatchDoc.
 Import ListNotations.
 Local Open Scope N_scope.
 
@@ -81,6 +81,55 @@ Example c19_member_names_matter :
   jv_eqb (JArr [JUInt 1; JUInt 2]) (JArr [JUInt 2; JUInt 1]) = false /\
   jv_eqb (JArr [JArr [JUInt 1]; JUInt 2]) (JArr [JUInt 1; JArr [JUInt 2]]) = false.
 Proof. vm_compute. repeat split. Qed.
+
+(* The machine the real JsonParser implements (Model.h_step: m_root, m_key, the container stacks, with
+   containers linked into their parent when opened - compared with the C++ on arbitrary event
+   sequences by the "ev" cases) agrees with the direct tree construction used by parse_text: fed with
+   the handler calls of a value in the order JsonLexer issues them (ProofsHandler.events_of: open,
+   members/elements left to right with ObjectKey before each member value, close), starting from a
+   fresh parser after Begin(), it ends with no error, empty stacks, empty m_key and m_root = that
+   value - for EVERY value whose objects have strictly increasing keys (std::map order; every tree
+   inside the c19_roundtrip guard, every document whose members are written in key order).
+   Documents with unsorted or duplicate member names are not covered by this theorem (there the
+   machine's replace-on-insert is modelled by obj_put in parse_text, tied by correspondence only). *)
+Theorem c19_handler_agrees :
+  forall v : jv,
+    sorted_tree v = true ->
+    h_run (h_step h_init EBegin) (events_of v) =
+      {| h_err := 0; h_root := Some v; h_key := []; h_stack := [] |} /\
+    h_tree (h_run (h_step h_init EBegin) (events_of v)) = Some v.
+Proof. exact handler_builds_o. Qed.
+Print Assumptions c19_handler_agrees.
+
+(* ... and in any context a value can arrive in (inside an open array, as a member value after
+   ObjectKey with a key greater than the members already there, or as the root): the events of v have
+   the same effect on the machine as the single call AddValue(v). *)
+Theorem c19_handler_agrees_in_context :
+  forall (v : jv) (s : hstate),
+    sorted_tree v = true -> ctx s -> h_run s (events_of v) = h_step s (EValue v).
+Proof. intros v s H1 H2. exact (events_build_o v H1 s H2). Qed.
+Print Assumptions c19_handler_agrees_in_context.
+Example c19_handler_example :
+  let v := JObj [([97], JArr [JUInt 1; JObj []]); ([98], JObj [([120], JNull)])] in
+  sorted_tree v = true /\ h_tree (h_run (h_step h_init EBegin) (events_of v)) = Some v.
+Proof. vm_compute. split; reflexivity. Qed.
+
+(* Doubles in equality.  The MODEL compares two JsonDouble leaves by their stored representation
+   and never equates a double with a non-double (the C++ also returns false for double vs integer,
+   Equals(const JsonDouble&) defaults to false).  The C++ compares the values AsDouble computed:
+   equal representations give equal doubles EXCEPT when the value is NaN (0 x 10^e with e >= 309,
+   e.g. "0e400" == "0e400" is false in the library), and different representations can denote the
+   same double ("1.0" / "1.00").  So jv_eqb on doubles is outside the faithful part of the model:
+   c19_tree_equality / c19_int_equality are about double-free leaves, generated comparisons use
+   identical texts with finite values or clearly different values only. *)
+Theorem c19_double_equality_model :
+  (forall n1 f1 l1 r1 e1 n2 f2 l2 r2 e2,
+     jv_eqb (JDbl n1 f1 l1 r1 e1) (JDbl n2 f2 l2 r2 e2) = true <->
+     n1 = n2 /\ f1 = f2 /\ l1 = l2 /\ r1 = r2 /\ e1 = e2) /\
+  (forall n f l r e v, match v with JDbl _ _ _ _ _ => False | _ => True end ->
+     jv_eqb (JDbl n f l r e) v = false /\ jv_eqb v (JDbl n f l r e) = false).
+Proof. split; [exact jv_eqb_dbl|exact jv_eqb_dbl_other]. Qed.
+Print Assumptions c19_double_equality_model.
 
 (* The message texts and JSON Patch keywords the model and the correspondence use are REGENERATED on
    every run from the repository sources (Gen.v: SetError literals of JsonLexer.cpp in source order,
